@@ -105,6 +105,9 @@ func (v *env) setupCallbackState(ws *witnessState, log *setupLog) *cbState {
 	cs.mfH, _ = json.Marshal(cs.H.Manifest)
 
 	gasH, neoH := v.native(nativenames.Gas), v.native(nativenames.Neo)
+	// S is armed with a plan that does nothing, so that the payments funding it
+	// succeed whether or not a safe-marked callback is allowed to write.
+	v.chainTx(log, "arm probeS with the empty plan", []neotest.Signer{val}, cs.S.Hash, "arm", 0, []byte("k"), []any{})
 	var fund []*transaction.Transaction
 	for i, c := range []*neotest.Contract{cs.H, cs.V, cs.S, cs.T} {
 		fund = append(fund, e.NewTx(t, []neotest.Signer{val}, gasH, "transfer", val.ScriptHash(), c.Hash, int64(50_0000_0000), nil))
@@ -578,4 +581,109 @@ func runCallbacks(run *ev.Run, v *env, ws *witnessState, cs *cbState) {
 	sort.Strings(ek)
 	run.Note("natives_seen_entering_a_contract_"+v.stage, ek)
 	run.Obs("native_methods_seen_entering_a_contract_"+v.stage, int64(len(ek)))
+}
+
+// runCallbackBlocks repeats a few callback chains as transactions in real
+// blocks (at the very end: they change the chain) and compares what the block
+// execution persisted with what the monitored test invocation of the same
+// script showed: same VM state, and the callback's notification is in the
+// application log iff the test invocation kept it. This ties the monitor's
+// observations of native callbacks to block execution.
+func runCallbackBlocks(run *ev.Run, v *env, ws *witnessState, cs *cbState) {
+	t, e := v.t, v.e
+	byID := map[string]*cbScenario{}
+	for _, s := range v.cbScenarios(ws, cs) {
+		byID[s.ID] = s
+	}
+	less := callflag.States | callflag.AllowNotify
+	user := neotest.Signer(v.user)
+	type blk struct {
+		id      string
+		f1, f   callflag.CallFlag
+		relay   *neotest.Contract
+		probe   *neotest.Contract
+		signers []neotest.Signer
+	}
+	cells := []blk{
+		{"GAS.transfer:user->S(safe-marked-callback)", callflag.All, callflag.All, nil, cs.S, []neotest.Signer{user}},
+		{"GAS.transfer:user->H", callflag.All, callflag.All, nil, cs.H, []neotest.Signer{user}},
+		{"NEO.vote:H-for-user(called-by-H)", callflag.All, less, cs.H, cs.H, []neotest.Signer{user}},
+		{"NEO.vote:H-for-user(called-by-H)", callflag.All, callflag.All, cs.H, cs.H, []neotest.Signer{user}},
+		{"Policy.blockAccount:S(safe-marked-callback)", callflag.All, less, nil, cs.S, []neotest.Signer{v.val, v.com}},
+		{"Management.destroy:V(NEO-holder,voted)", callflag.All, less, cs.V, cs.V, []neotest.Signer{user}},
+		{"Management.destroy:H(NEO-holder)", callflag.All, callflag.All, cs.H, cs.H, []neotest.Signer{user}},
+	}
+	plan := cbPlan{Act: 8} // put + notify
+	for _, c := range cells {
+		s := byID[c.id]
+		if s == nil {
+			continue
+		}
+		via := "entry"
+		if c.relay != nil {
+			via = v.name(c.relay.Hash) + ":" + fstr(c.f1)
+		}
+		id := fmt.Sprintf("callback-in-block/%s/%s/via=%s/f=%s/plan=%s", v.stage, s.ID, via, fstr(c.f), plan)
+		if !run.Want(id) {
+			continue
+		}
+		e.GenerateNewBlocks(t, 1) // GAS accrues for the NEO holders
+		script, err := v.cbScript(s, plan, c.relay, c.f1, c.f, nil)
+		if err != nil {
+			continue
+		}
+		var sg []transaction.Signer
+		for _, x := range c.signers {
+			sg = append(sg, transaction.Signer{Account: x.ScriptHash(), Scopes: transaction.Global})
+		}
+		o, err := v.run(&invocation{Script: script, EntryFlags: callflag.All, Signers: sg})
+		if err != nil {
+			continue
+		}
+		evs := func(o *outcome) int {
+			n := 0
+			for _, x := range o.FinalNotifs {
+				if x.By.Hash == c.probe.Hash && x.Name == "Ev" && x.By.Via != nil && v.isNative(x.By.Via.Hash) {
+					n++
+				}
+			}
+			return n
+		}
+		want := evs(o)
+		tx := e.PrepareInvocationNoSign(t, script)
+		tx.Signers = sg
+		neotest.AddNetworkFee(t, v.bc, tx, c.signers...)
+		e.AddSystemFee(tx, -1)
+		tx.SystemFee += 1_0000_0000
+		for _, x := range c.signers {
+			if err := x.SignTx(v.bc.GetConfig().Magic, tx); err != nil {
+				t.Fatalf("cannot sign: %v", err)
+			}
+		}
+		e.AddNewBlock(t, tx)
+		aer, err := v.bc.GetAppExecResults(tx.Hash(), 0x40)
+		if err != nil || len(aer) == 0 {
+			run.Inconclusive("no application log for %s", id)
+			continue
+		}
+		got := 0
+		// "Ev" events of the probe: one is emitted by nothing but the callback here
+		for _, n := range aer[0].Events {
+			if n.ScriptHash == c.probe.Hash && n.Name == "Ev" {
+				got++
+			}
+		}
+		halted := aer[0].VMState == vmstate.Halt
+		run.Case(fmt.Sprintf("%s/block:halt=%v,callback-events=%d/test:%s", id, halted, got, o.summary(v.name)), want > 0 || got > 0)
+		run.Obs("callback_chains_executed_in_real_blocks", 1)
+		if halted == o.Halted && got == want {
+			run.Obs("callback_chains_in_blocks_agreeing_with_the_monitored_test_invocation", 1)
+			if got > 0 && c.f != callflag.All {
+				run.Obs("callback_chains_in_blocks_where_the_native_held_less_than_All_and_the_callback_ran", 1)
+			}
+		} else {
+			run.Inconclusive("block execution and test invocation disagree for %s: block halt=%v events=%d (%s), test invocation halt=%v events=%d", id, halted, got, aer[0].FaultException, o.Halted, want)
+		}
+		report(run, v, o, id, map[string]any{"scenario": s.ID, "script": hex.EncodeToString(script), "also_executed_in_block": tx.Hash().StringLE(), "block_vm_state": aer[0].VMState.String(), "callback_events_in_application_log": got})
+	}
 }
